@@ -569,6 +569,9 @@ fn concurrent_child(seed: u64, dir: &Path, replay: Option<Vec<u32>>) -> Value {
 	let viols: Arc<Mutex<Vec<(String, String)>>> = Arc::new(Mutex::new(vec![]));
 	let committed_version: Arc<Vec<std::sync::atomic::AtomicU64>> = Arc::new((0..n_writers).map(|_| std::sync::atomic::AtomicU64::new(0)).collect());
 	let committed_rounds: Arc<Mutex<Vec<Vec<u64>>>> = Arc::new(Mutex::new(vec![vec![]; n_writers]));
+	// round whose top-level commit() has been invoked (set right before the call): nothing newer may
+	// be visible to anybody else
+	let commit_invoked: Arc<Vec<std::sync::atomic::AtomicU64>> = Arc::new((0..n_writers).map(|_| std::sync::atomic::AtomicU64::new(0)).collect());
 	let size_before = map_size(dir);
 	sched::install(seed, stay, replay, 300_000);
 	let mut handles = vec![];
@@ -577,6 +580,7 @@ fn concurrent_child(seed: u64, dir: &Path, replay: Option<Vec<u32>>) -> Value {
 		let viols = viols.clone();
 		let cv = committed_version.clone();
 		let cr = committed_rounds.clone();
+		let ci = commit_invoked.clone();
 		let mut wr = rng.fork(&format!("writer{}", w));
 		let debug = std::env::var("VERIF_DEBUG").is_ok();
 		let dirp = dir.to_path_buf();
@@ -619,6 +623,7 @@ fn concurrent_child(seed: u64, dir: &Path, replay: Option<Vec<u32>>) -> Value {
 					if abort {
 						drop(b);
 					} else {
+						ci[w].store(round, std::sync::atomic::Ordering::SeqCst);
 						b.commit().map_err(|e| format!("commit: {:?}", e))?;
 						cr.lock().unwrap()[w].push(round);
 						cv[w].store(round, std::sync::atomic::Ordering::SeqCst);
@@ -637,6 +642,7 @@ fn concurrent_child(seed: u64, dir: &Path, replay: Option<Vec<u32>>) -> Value {
 		let viols = viols.clone();
 		let cv = committed_version.clone();
 		let cr = committed_rounds.clone();
+		let ci = commit_invoked.clone();
 		let iters = rounds * 2;
 		handles.push(sched::spawn(&format!("reader{}", r), move || {
 			global::set_local_chain_type(global::ChainTypes::AutomatedTesting);
@@ -680,6 +686,12 @@ fn concurrent_child(seed: u64, dir: &Path, replay: Option<Vec<u32>>) -> Value {
 							}
 							if vs[0] < floor[w] {
 								fail("committed-write-not-visible", format!("reader{}: sees version {} of writer{} although {} was committed before the read began", r, vs[0], w, floor[w]));
+								return;
+							}
+							// isolation: what is visible was committed, or its commit() is at least under way
+							let invoked = ci[w].load(std::sync::atomic::Ordering::SeqCst);
+							if vs[0] != 0 && vs[0] != invoked && !cr.lock().unwrap()[w].contains(&vs[0]) {
+								fail("uncommitted-write-visible", format!("reader{}: an iterator shows version {} of writer{}, which belongs to a batch that was dropped or whose commit has not been called (last commit invoked: {})", r, vs[0], w, invoked));
 								return;
 							}
 							if p == b'z' {
@@ -730,6 +742,11 @@ fn concurrent_child(seed: u64, dir: &Path, replay: Option<Vec<u32>>) -> Value {
 										}
 										if v < floor[w] {
 											fail("committed-write-not-visible", format!("reader{}: get sees version {} although {} was committed before", r, v, floor[w]));
+											return;
+										}
+										let invoked = ci[w].load(std::sync::atomic::Ordering::SeqCst);
+										if v != 0 && v != invoked && !cr.lock().unwrap()[w].contains(&v) {
+											fail("uncommitted-write-visible", format!("reader{}: get returns version {} of writer{}, which belongs to a batch that was dropped or whose commit has not been called (last commit invoked: {})", r, v, w, invoked));
 											return;
 										}
 										if b.0.len() != 16 + payload && v != 0 {
